@@ -968,7 +968,7 @@ def check_conversions(n, vals):
         ncmp += 1
         g = np.asarray(got, dtype=float)
         w = np.asarray(want, dtype=float)
-        if g.shape != w.shape or not np.all(np.abs(g - w) <= 1e-7 * np.maximum(1.0, np.maximum(np.abs(g), np.abs(w)))):
+        if g.shape != w.shape or not np.all(np.isfinite(g)) or not np.all(np.abs(g - w) <= 1e-7 * np.maximum(1.0, np.maximum(np.abs(g), np.abs(w)))):
             fails.append(("conversion", f"{what}: got {g.tolist()}, definition gives {w.tolist()}"))
 
     try:
